@@ -64,10 +64,32 @@ pub fn run(ctx: &Ctx) {
         let p = random_project(tape, false, &mut avoided);
         check_project(&p, stats)
     });
+    if ctx.tier == crate::run::Tier::Thorough {
+        // second engine: libFuzzer drives the same generator through the choice tape, with the
+        // parse oracle inside the target (strict mode: any C01 failure aborts)
+        for (bytes, _log) in crate::fuzz::campaign(ctx, "fz_tape", 240, &[("TTGV_FUZZ_STRICT", "1")], "/nonexistent") {
+            let input = json!({"bytes": bytes});
+            let mut tape = Tape::from_bytes(&bytes);
+            let mut avoided = 0;
+            let p = random_project(&mut tape, false, &mut avoided);
+            ctx.single("c01.fuzz_tape", input, |stats| check_project(&p, stats));
+        }
+    }
+}
+
+fn tape_from_byte_json(input: &Value) -> Tape {
+    let bytes: Vec<u8> = input["bytes"].as_array().map(|a| a.iter().filter_map(|x| x.as_u64().map(|v| v as u8)).collect()).unwrap_or_default();
+    Tape::from_bytes(&bytes)
 }
 
 pub fn replay(check: &str, input: &Value, stats: &mut Stats) -> Option<Vec<Failure>> {
     match check {
+        "c01.fuzz_tape" => {
+            let mut tape = tape_from_byte_json(input);
+            let mut avoided = 0;
+            let p = random_project(&mut tape, false, &mut avoided);
+            Some(check_project(&p, stats))
+        }
         "c01.project" => {
             let mut tape = Tape::new(super::tape_of(input));
             let mut avoided = 0;
